@@ -117,6 +117,7 @@ type limitRun struct {
 	viol   []string
 	anyErr bool
 	pub    *memRecorder
+	notJudged int
 }
 
 // runLimited decodes the whole history under one limit (0 = the default limit).
@@ -131,6 +132,16 @@ func runLimited(h []Letter, bars []*colarspb.BatchArrowRecords, limit uint64, us
 	healthy := true
 	for i, l := range h {
 		got, err, pan := decodeCanon(c, l, bars[i])
+		if pan != "" && !healthy {
+			// Not judged: an earlier batch of this stream was refused, its unread
+			// payloads left sub-streams without dictionary entries that this batch
+			// indexes (same territory as spliced IPC streams, see DESIGN.md C14).
+			r.notJudged++
+			r.ok = append(r.ok, false)
+			r.canon = append(r.canon, nil)
+			r.anyErr = true
+			continue
+		}
 		if pan != "" {
 			r.viol = append(r.viol, fmt.Sprintf("batch %d: consumer panicked under limit %d: %s", i, limit, pan))
 			r.ok = append(r.ok, false)
@@ -230,6 +241,7 @@ func limitLadder(h []Letter, zstd int, counters map[string]int, maxLimit uint64)
 		}
 		r := runLimited(h, bars, L, false)
 		counters["limit_runs"]++
+		counters["panics_on_unhealthy_stream_not_judged"] += r.notJudged
 		viol[L] = append(viol[L], r.viol...)
 		for i := range h {
 			if r.ok[i] {
@@ -382,7 +394,7 @@ func init() {
 				maxL = o.MaxDict
 			}
 		}
-		return map[string]any{"limit_runs": c["limit_runs"], "limit_runs_with_refusal": c["limit_runs_with_refusal"], "ladders_capped": c["ladder_capped"],
+		return map[string]any{"limit_runs": c["limit_runs"], "limit_runs_with_refusal": c["limit_runs_with_refusal"], "ladders_capped": c["ladder_capped"], "panics_on_unhealthy_stream_not_judged": c["panics_on_unhealthy_stream_not_judged"],
 			"largest_first_limit_without_refusal": maxL, "exhaustive": c["ladder_capped"] == 0, "max_dictionary_entries_seen": 0,
 			"ladder": "limits 64*k for k = 0.. up to the first limit with no refusal in the whole history, plus L+1 and L+63 cross-checks every 1 KiB, plus the default 70 MiB"}
 	}
